@@ -16,6 +16,30 @@ C = {
  "C04": dict(cat="model_checking", tech="TLC: Recompose(Components(s)) round trip on all texts up to a bound; TLC trace validation of uriToString on borrowed and owned URIs and of re-parse equality",
    text="TLC checks the round-trip law on the specification; recorded real recompositions (borrowed and after make-owner) are validated by TLC against Recompose(Components(in)), and the re-parsed text must compare equal both ways.",
    note="Trusted: TLC, spec/UriValue.tla (RFC 3986 5.3), harness projection. Bounded corpus as C02.", ref="4 C04"),
+ "C05": dict(cat="model_checking", tech="TLC: bounded append-by-piece writer model (never writes at index >= cap, contract); TLC trace validation of uriToString/CharsRequired for every capacity, guard-page and canary layouts",
+   text="The bounded-writer design is model-checked; real URI objects (parsed, normalized, resolved) are written with every capacity from -1 to required+2 into buffers ending at a PROT_NONE page and into canary-followed buffers, and TLC validates each recorded outcome against the WriteOK contract for Recompose of the logged value.",
+   note="Trusted: TLC, spec/UriWriter.tla and UriValue.tla, guard pages/ASan for the out-of-capacity write. Bounded corpus of URIs.", ref="4 C05"),
+ "C06": dict(cat="model_checking", tech="TLC: RFC 3986 5.2.2 on values checked against the literal text-level 5.2.2/5.2.3/5.2.4 algorithm and the RFC 5.4 tables over a component universe; TLC trace validation of recorded uriAddBaseUri* executions",
+   text="TLC shows on ~10^5 (reference, base, option) states that the value-level resolution equals the RFC's literal text algorithm except exactly the two named exceptions and that every target reads back as held; recorded real resolutions (three entry points, both widths) of that universe and of random longer paths are validated by TLC against ResolveT applied to the projected real inputs.",
+   note="Trusted: TLC, the transcription (cross-checked inside TLC against the literal algorithm and the RFC example tables), harness projection. Bounded universe + seeded random paths.", ref="4 C06"),
+ "C08": dict(cat="model_checking", tech="TLC: normal-form idempotence, mask locality/composition, structure theorem over a component universe; TLC trace validation of uriNormalizeSyntax* and the mask-required query (borrowed/owned, all masks in thorough)",
+   text="Normalize(value, mask) is model-checked for idempotence, per-mask locality and composition; recorded real normalizations and mask queries over percent-encoding/case/dot-segment alphabets are validated by TLC against Normalize and the MaskOK relation (any sufficient mask that is zero only for normal forms).",
+   note="Trusted: TLC, spec/UriNormalize.tla, harness projection. A fully cancelled relative path may be '.' or empty for C08 (the empty form is C09's known finding).", ref="4 C08"),
+ "C09": dict(cat="model_checking", tech="TLC: Normalize(Resolve(Normalize R, B)) = Normalize(Resolve(R, B)) and kind preservation over the component universe; TLC trace validation of both real pipelines; named deviation for the recorded known finding",
+   text="The C09 equation and the kind clause are invariants of the value machine checked by TLC; both pipelines are executed in the real library for the universe and random deep '..' references and validated by TLC. The one recorded defect (cancelled relative path becomes empty, pinned by the repository's tests) is accepted only through its named deviation action, which predicts the exact defective output.",
+   note="Known finding KF-C09-1 (known_findings.json) is printed as KNOWN-FINDING; any other disagreement is a VIOLATION. Trusted: TLC, spec, projection.", ref="4 C09"),
+ "C11": dict(cat="model_checking", tech="TLC: every value produced by resolution/normalization has the structure parsing its text yields (equal <=> same text); TLC trace validation of uriEqualsUri on all pairs of a pool of real objects incl. produced ones and aliasing ranges",
+   text="The structure theorem that makes 'equal iff same text' true is model-checked on the value machine; uriEqualsUri is run on all ordered pairs of real objects differing in one component, produced by resolution/normalization, or parsed from one shared buffer, and TLC validates result, symmetry, text agreement and that arguments stay bit-for-bit unchanged.",
+   note="Trusted: TLC, spec/UriValue.tla Equal, harness projection and byte snapshots. Bounded pool.", ref="4 C11"),
+ "C16": dict(cat="model_checking", tech="TLC: escape transducer per transition and on all strings to a bound, round-trip law, in-place unescape machine with explicit cursors (w<=r, no write past terminator); TLC trace validation of uriEscape*/uriUnescapeInPlace* with exact-size guard-page buffers",
+   text="The escape transducer and the two-cursor in-place unescape machine are model-checked (growth bound per transition, alphabet, round trip, cursor invariant); recorded real calls over all short strings, every code point in context, malformed sequences and random strings are validated by TLC, with buffers of exactly 3n+1/6n+1/n+1 characters ending at a guard page.",
+   note="Trusted: TLC, spec/UriEscape.tla, guard pages. Bounded string lengths + seeded random.", ref="4 C16"),
+ "C17": dict(cat="model_checking", tech="TLC: Dissect(Compose(l)) round trip, size sufficiency, output alphabet, scaled INT_MAX refusal; TLC trace validation of chars-required / compose (every capacity) / malloc variants / dissect; giant inputs under UBSan",
+   text="Query composition/dissection laws are model-checked on lists to a bound, the INT_MAX refusal on a scaled constant; recorded real calls (all capacities with guard-page and canary layouts, malloc variants dissected again, dissection of all short arrangements) are validated by TLC against a relation that allows either outcome between the real length and the worst case; two giant inputs exercise the size arithmetic at real scale.",
+   note="Trusted: TLC, spec/UriQuery.tla. INT_MAX clause: scaled model + two real-scale inputs only.", ref="4 C17"),
+ "C18": dict(cat="model_checking", tech="TLC: round trip, RFC 3986 validity (matcher), prefix form and documented sizes for all names to a bound in the documented domain; TLC trace validation of the four conversions with exact-size guard-page buffers",
+   text="The four conversions are specified as functions and model-checked on all short names of the documented domain; recorded real conversions (every code point per position class, random names, both directions and widths, exact documented buffer sizes at a guard page, produced URI through the real parser) are validated by TLC.",
+   note="Trusted: TLC, spec/UriFile.tla. The documented Windows domain excludes names with '/', a non-letter 'drive' and UNC with an empty server (stated in DESIGN).", ref="4 C18"),
 }
 def gen():
     checks = []
